@@ -132,4 +132,40 @@ theorem flow_of_flowB {f : Func} {F : Nat → Nat} (h : flowB f F = true) : Flow
   · intro b blk hb; exact (h blk (List.mem_of_getElem? hb)).1
   · intro b blk hb; exact (h blk (List.mem_of_getElem? hb)).2
 
+/-! ### splitting the arc counts of a line into circuits -/
+
+/-- `es` is a chain of arcs from block `cur` back to block `first`, through blocks of `bs` only -/
+def chainOk (f : Func) (bs : List Nat) (first : Nat) : Nat → List Nat → Bool
+  | cur, [] => cur == first
+  | cur, e :: es =>
+    match f.arcs[e]? with
+    | none => false
+    | some a => a.src == cur && bs.contains a.src && bs.contains a.dst && chainOk f bs first a.dst es
+
+/-- a non-empty closed chain of arcs among the blocks `bs` -/
+def isCircuit (f : Func) (bs : List Nat) (es : List Nat) : Bool :=
+  match es with
+  | [] => false
+  | e :: _ =>
+    match f.arcs[e]? with
+    | none => false
+    | some a => chainOk f bs a.src a.src es
+
+/-- `circs` is a way to split (part of) the arc counts `cnt` of the blocks `bs` into circuits:
+every member is a circuit and no arc is used more often than its count -/
+def validSplit (f : Func) (cnt : Nat → Nat) (bs : List Nat) (circs : List (List Nat)) : Bool :=
+  circs.all (isCircuit f bs) &&
+    (List.range f.arcs.length).all fun e => decide ((circs.map fun c => c.count e).sum ≤ cnt e)
+
+/-- the count returned by a cycle search, if it succeeded -/
+def cyclesOf : Outcome ((Nat → Nat) × Nat) → Option Nat
+  | .ok (_, n) => some n
+  | _ => none
+
+/-- the count a result reports for line `l` of its only file -/
+def lineCountOf (o : Outcome (List (Bytes × Cov))) (l : Nat) : Option Nat :=
+  match o with
+  | .ok [(_, c)] => AList.get? c.lines l
+  | _ => none
+
 end Grcov.Gcno
